@@ -67,7 +67,11 @@ type fault struct {
 	Shard   int    `json:"shard"`   // shard that fails (-1 = any)
 	Persist bool   `json:"persist"` // false: fails only the first time it is reached
 	Msg     string `json:"msg"`
+	Times   int    `json:"times,omitempty"` // not persistent: fails this many times in a row (default 1), again after every "resetfaults" step
 }
+
+// faultEpoch is advanced by the "resetfaults" step: one-shot faults fire again afterwards.
+var faultEpoch int64
 
 type prog struct {
 	Nodes []node `json:"nodes"`
@@ -174,16 +178,22 @@ func (r *runRec) maybeFail(nd int, f *fault, shard int) error {
 	if f.Shard >= 0 && shard >= 0 && f.Shard != shard {
 		return nil
 	}
-	key := fmt.Sprintf("%d/%d", nd, shard)
+	ep := atomic.LoadInt64(&faultEpoch)
+	key := fmt.Sprintf("%d/%d/%d", ep, nd, shard)
+	times := f.Times
+	if times <= 0 {
+		times = 1
+	}
 	r.mu.Lock()
 	n := r.faultN[key]
 	r.faultN[key]++
-	fire := n == f.At || (f.Persist && n >= f.At)
+	fire := (n >= f.At && n < f.At+times) || (f.Persist && n >= f.At)
 	if fire && !f.Persist {
-		if r.fired[fmt.Sprint(nd)] {
+		fk := fmt.Sprintf("%d/%d", ep, nd)
+		if r.faultN["fired/"+fk] >= times {
 			fire = false
 		} else {
-			r.fired[fmt.Sprint(nd)] = true
+			r.faultN["fired/"+fk]++
 		}
 	}
 	if fire {
@@ -265,8 +275,12 @@ func build(rid int, p *prog, args []bigslice.Slice) bigslice.Slice {
 		case "readerfunc":
 			shards, batch := nd.Shards, nd.Batch
 			s = bigslice.ReaderFunc(nd.NShard, func(shard int, st *rfState, ks, vs []int) (int, error) {
+				var ferr error
 				if err := rec.maybeFail(ni, nd.Fault, shard); err != nil {
-					return 0, err
+					if nd.Fault.Mode != "errrows" {
+						return 0, err
+					}
+					ferr = err // delivered together with the rows of this call
 				}
 				rows := shards[shard]
 				n := 0
@@ -274,6 +288,9 @@ func build(rid int, p *prog, args []bigslice.Slice) bigslice.Slice {
 					ks[n], vs[n] = rows[st.pos][0], rows[st.pos][1]
 					n++
 					st.pos++
+				}
+				if ferr != nil {
+					return n, ferr
 				}
 				if st.pos == len(rows) {
 					return n, sliceio.EOF
@@ -711,6 +728,9 @@ func (r *runner) doStep(ctx context.Context, st *step, lane int) {
 		}
 		prev, fired := r.killer.arm(st.Kills)
 		r.emit(vtr.Rec{"do": "kills", "lane": lane, "nkills": len(st.Kills), "rpc_before": prev, "fired_before": fired})
+	case "resetfaults":
+		atomic.AddInt64(&faultEpoch, 1)
+		r.emit(vtr.Rec{"do": "resetfaults", "lane": lane})
 	case "faults":
 		vfault.ClearPlans()
 		for _, f := range st.Faults {
